@@ -71,7 +71,7 @@ def main():
         if kjobs:
             results += run_parallel(kjobs, 1)
         rc = finish(prop, tier, seed, results, t0, P["level_text"], P.get("assumptions", []),
-                    P.get("trusted_base", props.TRUSTED_BASE))
+                    P.get("trusted_base", props.TRUSTED_BASE), category=P.get("category", "proof"))
     finally:
         wd.cleanup()
     sys.exit(rc)
